@@ -117,7 +117,7 @@ def mc_game(chk, depth, workers=8):
     chk.add("states", res.distinct)
     chk.add("transitions", res.states)
     chk.cov["mc_depth"] = depth
-    chk.cov["mc_roots"] = 12
+    chk.cov["mc_roots"] = 17
     return res
 
 
